@@ -447,3 +447,126 @@ Proof.
   intros c now d orcs c' o R Hin. destruct (recv_facts _ _ _ _ _ _ R) as (_ & _ & _ & D). apply D.
   apply existsb_exists. exists OHandlerConnect. split; auto.
 Qed.
+
+(* ---------- part 5: the symbolic layer ---------- *)
+Section Symbolic.
+  Variable SIG : Type.
+  Variable pub : Z -> Z.
+  Variable sign : Z -> sh_payload -> SIG.
+  Variable verify : Z -> SIG -> sh_payload -> bool.
+  Variable dh : Z -> Z -> Z.
+  Variable kdf : Z -> Z -> Z.
+  Variable parse : list byte -> hmsg SIG.
+  Variable ser_shello : Z -> sh_payload -> SIG -> list byte.
+  Variable ser_chal : Z -> list byte.
+
+  Notation hstate := (hstate SIG).
+  Notation oracle_of := (oracle_of SIG pub sign verify dh kdf ser_shello ser_chal).
+  Notation hs_step := (hs_step SIG pub sign verify dh kdf ser_shello ser_chal).
+  Notation hwalk := (hwalk SIG pub sign verify dh kdf parse ser_shello ser_chal).
+  Notation hrecv := (hrecv SIG pub sign verify dh kdf parse ser_shello ser_chal).
+  Notation dgram_oracles := (dgram_oracles SIG pub sign verify dh kdf parse ser_shello ser_chal).
+  Notation hstep := (hstep SIG pub sign verify dh kdf parse ser_shello ser_chal).
+  Notation hrun := (hrun SIG pub sign verify dh kdf parse ser_shello ser_chal).
+  Notation ev_of := (ev_of SIG pub sign verify dh kdf parse ser_shello ser_chal).
+
+  (* perfect-cryptography hypotheses (ECDSA, ECDH) *)
+  Hypothesis verify_sign : forall sk s m, verify (pub sk) s m = true <-> s = sign sk m.
+  Hypothesis sign_names_signer : forall a b m, sign a m = sign b m -> a = b.
+  Hypothesis dh_comm : forall a b, dh a (pub b) = dh b (pub a).
+
+  Lemma fail_oracle_nonzero code : o_parse (fail_oracle code) <> 0.
+  Proof. unfold fail_oracle; cbn. destruct (code =? 0) eqn:E; lia. Qed.
+
+  (* (1) the client takes a key / becomes CONNECTED only from a hello that verifies under the key it
+     was configured with, and then the key is kdf(dh(own private, signed ephemeral), signed salt) *)
+  Theorem client_adopts_only_signed_proof : forall (s : hstate) m c' o,
+    c_server (h_conn s) = false -> c_key (h_conn s) = None -> c_status (h_conn s) <> CONNECTED ->
+    hs_step s SERVER_HELLO m = (c', o) ->
+    (c_status c' = CONNECTED \/ c_key c' <> None ->
+       exists rp p sg, m = MServerHello rp p sg /\ verify (check_key s rp) sg p = true /\
+         c_key c' = Some (kdf (dh (h_priv s) (sp_pub p)) (sp_salt p)) /\ c_token c' = sp_token p /\
+         c_status c' = CONNECTED) /\
+    ((forall rp p sg, m = MServerHello rp p sg -> verify (check_key s rp) sg p = false) ->
+       c_status c' <> CONNECTED /\ c_key c' = None /\ c_token c' = c_token (h_conn s) /\
+       (forall rp p sg, m = MServerHello rp p sg -> c_status c' = DISCONNECTED)).
+  Proof.
+    intros s m c' o Sv K St H. unfold Handshake.hs_step, Handshake.oracle_of, recv_handshake in H. rewrite Sv in H.
+    destruct m as [cp v pd|rp p sg|t|code]; cbn in H.
+    - inversion H; subst. split; [intros [X|X]; contradiction|]. intros _. repeat split; auto. discriminate.
+    - destruct (verify (check_key s rp) sg p) eqn:V; cbn in H.
+      + inversion H; subst; cbn. split.
+        * intros _. exists rp, p, sg. repeat split; auto.
+        * intros X. rewrite (X _ _ _ eq_refl) in V. discriminate.
+      + inversion H; subst; cbn. split; [intros [X|X]; [discriminate|contradiction]|].
+        intros _. repeat split; auto. discriminate.
+    - inversion H; subst. split; [intros [X|X]; contradiction|]. intros _. repeat split; auto. discriminate.
+    - pose proof (fail_oracle_nonzero code) as NZ. unfold fail_oracle in *. cbn in *.
+      destruct ((if code =? 0 then 9 else code) =? 6) eqn:E6.
+      + inversion H; subst; cbn. split; [intros [X|X]; [discriminate|contradiction]|].
+        intros _. repeat split; auto; discriminate.
+      + destruct (negb ((if code =? 0 then 9 else code) =? 0)) eqn:E0; [|lia].
+        inversion H; subst. split; [intros [X|X]; contradiction|]. intros _. repeat split; auto. discriminate.
+  Qed.
+
+  (* with a pinned root key the accepted signature IS the root's signature of the payload *)
+  Corollary pinned_hello_signed_by_root : forall (s : hstate) root rp p sg,
+    h_pinned s = Some (pub root) -> verify (check_key s rp) sg p = true -> sg = sign root p.
+  Proof. intros s root rp p sg P V. unfold check_key in V. rewrite P in V. now apply verify_sign. Qed.
+
+  (* what the attacker can inject and get adopted by a pinned client: only a replay of a payload the
+     honest server signed (altered fields, re-signing with its own keys, foreign root: all rejected) *)
+  Theorem forged_hello_rejected_proof : forall (s : hstate) root akeys seen rp p sg c' o,
+    c_server (h_conn s) = false -> c_key (h_conn s) = None -> c_status (h_conn s) <> CONNECTED ->
+    h_pinned s = Some (pub root) -> ~ In root akeys ->
+    attacker_hello SIG sign akeys seen (MServerHello rp p sg) ->
+    hs_step s SERVER_HELLO (MServerHello rp p sg) = (c', o) ->
+    (exists rp', In (MServerHello rp' p sg) seen) \/
+    (c_status c' = DISCONNECTED /\ c_key c' = None).
+  Proof.
+    intros s root akeys seen rp p sg c' o Sv K St P NR Att H.
+    destruct (client_adopts_only_signed_proof _ _ _ _ Sv K St H) as [A B].
+    destruct (verify (check_key s rp) sg p) eqn:V.
+    - left. pose proof (pinned_hello_signed_by_root _ _ _ _ _ P V) as E.
+      destruct (Att root E) as [X|X]; [contradiction|exact X].
+    - right. destruct B as (B1 & B2 & B3 & B4).
+      + intros rp0 p0 sg0 E; inversion E; subst; auto.
+      + split; eauto.
+  Qed.
+
+  Lemma note_conn (s : hstate) ty m o c1 o1 : h_conn (note SIG s ty m o c1 o1) = c1.
+  Proof. unfold note. case_all; reflexivity. Qed.
+
+  (* hwalk is Conn.recv_msgs run with the oracle answers it computes *)
+  Lemma hwalk_recv_msgs tm ms : forall (s s' : hstate) o orcs extra,
+    hwalk s tm ms = (s', o, orcs) -> recv_msgs (h_conn s) tm ms (orcs ++ extra) = (h_conn s', o).
+  Proof.
+    induction ms as [|m r IH]; intros s s' o orcs extra H.
+    - inversion H; subst. reflexivity.
+    - rewrite recv_msgs_cons. cbn [Handshake.hwalk] in H.
+      destruct (bf_insert (c_bf_msg (h_conn s)) (w_seq m)) as [bf|].
+      2:{ destruct (hwalk s tm r) as [[s1 o1] orcs1] eqn:W. inversion H; subst.
+          destruct (is_hs (w_type m)); cbn; eapply IH; eauto. }
+      unfold msg1.
+      destruct (w_type m) eqn:Ty; cbn [is_hs] in *.
+      all: try (match type of H with context [recv_handshake ?c ?t ?oo] =>
+             destruct (recv_handshake c t oo) as [c1 o1] eqn:R end;
+           destruct (raised o1) eqn:Ra;
+           [ inversion H; subst; cbn [hd tl app]; rewrite R, Ra, note_conn; reflexivity
+           | match type of H with context [Handshake.hwalk _ _ _ _ _ _ _ _ _ ?s1 ?t0 ?r0] =>
+               destruct (hwalk s1 t0 r0) as [[s2 o2] orcs2] eqn:W;
+               inversion H; subst; cbn [hd tl app]; rewrite R, Ra;
+               (let E := fresh in pose proof (IH _ _ _ _ extra W) as E; rewrite note_conn in E; rewrite E) end;
+             reflexivity ]).
+      all: try (cbn in H |- *; change (raised (@nil out)) with false in *; cbn in H |- *;
+           match type of H with context [Handshake.hwalk _ _ _ _ _ _ _ _ _ ?s1 ?t0 ?r0] =>
+             destruct (hwalk s1 t0 r0) as [[s2 o2] orcs2] eqn:W;
+             inversion H; subst; (let E := fresh in pose proof (IH _ _ _ _ extra W) as E; cbn in E; rewrite E) end; reflexivity).
+      (* APP_FRAGMENT *)
+      destruct (recv_fragment (h_conn s <| c_bf_msg := bf |>) tm (w_seq m) (w_payload m)) as [c1 o1] eqn:F.
+      destruct (raised o1); [inversion H; subst; reflexivity|].
+      match type of H with context [Handshake.hwalk _ _ _ _ _ _ _ _ _ ?s1 ?t0 ?r0] =>
+        destruct (hwalk s1 t0 r0) as [[s2 o2] orcs2] eqn:W;
+        inversion H; subst; (let E := fresh in pose proof (IH _ _ _ _ extra W) as E; cbn in E; rewrite E) end; reflexivity.
+  Qed.
+End Symbolic.
